@@ -628,11 +628,12 @@ func (c *Ctx) fixedWidthModelFields() map[string]int {
 
 // lenChecked: at instruction `at` of fn the byte slice v is known to have length w. v is described as an access path (a base
 // value and a chain of struct fields read from it); the fact is established by
-//  (1) a branch on `len(path) != w` / `== w` whose ok-edge dominates `at`;
-//  (2) a module helper called with the base whose "accepted" outcome (nil error / true) dominates `at` and inside which the fact
-//      holds at every return that can report acceptance;
-//  (3) the base being a parameter and the fact holding at every call site for the argument;
-//  (4) the base being a local struct whose field was stored once, from a value for which the fact holds.
+//
+//	(1) a branch on `len(path) != w` / `== w` whose ok-edge dominates `at`;
+//	(2) a module helper called with the base whose "accepted" outcome (nil error / true) dominates `at` and inside which the fact
+//	    holds at every return that can report acceptance;
+//	(3) the base being a parameter and the fact holding at every call site for the argument;
+//	(4) the base being a local struct whose field was stored once, from a value for which the fact holds.
 func lenChecked(g *CallGraph, rev map[*ssa.Function][]cgIn, fn *ssa.Function, v ssa.Value, at ssa.Instruction, w int, depth int) bool {
 	base, path := accessPath(v)
 	q := &lenQ{g: g, rev: rev, w: w}
